@@ -62,12 +62,12 @@ Mutants (checks/mutants/C13/*.diff; `cp -r /repo /tmp/x && git -C /tmp/x apply <
                                   two statements without rewriting them); only a negative-counter panic by scheduling luck
                                   would show it.  Documented weakness.
 """
-import os, json, re, shutil
+import os, json, re, shutil, time
 import vp
 
 SPEC = os.path.join(vp.VERIF, "spec")
 
-MC_QUICK = ["tcp", "pc", "twice", "reseq", "fail", "fail_pc", "both", "both_pc", "tcp_live", "pc_live", "fail_live", "both_live"]
+MC_QUICK = ["tcp", "pc", "twice", "reseq", "fail", "fail_pc", "both", "both_pc", "hijack", "tcp_live", "pc_live", "fail_live", "both_live"]
 MC_THOROUGH = MC_QUICK + ["tcp3"]
 
 # (base cfg, Bug, INVARIANT|PROPERTY, property that must fail)
@@ -90,6 +90,7 @@ BROKEN = [
     ("fail", "started_early", "PROPERTY", "FailedStartLeavesStopped"),
     ("fail_live", "started_early", "PROPERTY", "ShutdownTerminates"),
     ("both_live", "switch_close", "PROPERTY", "ShutdownTerminates"),
+    ("hijack", "hijack_keeps_conn", "INVARIANT", "NothingLeft"),
 ]
 
 RESTART_QUICK = [("restart", "INVARIANT", "GracefulReturn"), ("restart", "INVARIANT", "ServeReturnsNil"),
@@ -110,16 +111,38 @@ def cfg_with(base, drop=("INVARIANTS", "INVARIANT", "PROPERTIES", "PROPERTY"), a
 
 # ---------------------------------------------------------------------- TLC on the spec alone
 
-# the quick tier checks liveness on a smaller instance (no client close / handler close)
-LIVE_QUICK = {"ClientMayClose": "FALSE", "HandlerMayClose": "FALSE"}
+# The quick tier model-checks smaller instances of the big configurations (the thorough tier runs the files as
+# they are): tcp 2 conns x 1 request, twice without connections, reseq / liveness with one connection.
+QUICK = {
+    "tcp": {"MaxReq": 1},
+    "twice": {"NConns": 0},
+    "reseq": {"NConns": 1},
+    "tcp_live": {"ClientMayClose": "FALSE", "HandlerMayClose": "FALSE", "NConns": 1},
+    "fail_live": {"NConns": 0},
+    "restart_live": {"NConns": 0},
+}
+
+
+def quick_consts(ctx, base):
+    return QUICK.get(base) if ctx.quick else None
+
+
+def with_consts(text, consts):
+    """Append CONSTANT overrides to a cfg text, dropping the lines they replace."""
+    if not consts:
+        return text
+    for k in consts:
+        text = re.sub(r"^  %s = .*\n" % k, "", text, flags=re.M)
+    return text + "CONSTANTS\n" + "".join("  %s = %s\n" % kv for kv in consts.items())
 
 
 def mc(ctx):
     names = MC_QUICK if ctx.quick else MC_THOROUGH
 
     def one(n):
-        consts = LIVE_QUICK if (ctx.quick and n == "tcp_live") else None
-        r = ctx.tlc("MC_Server", cfg="MC_Server_" + n, workers=4, xmx="4g", timeout=3000, consts=consts)
+        name = "M_" + n
+        text = with_consts(open(os.path.join(SPEC, "MC_Server_%s.cfg" % n)).read(), quick_consts(ctx, n))
+        r = ctx.tlc("MC_Server", cfg=name, files={name + ".cfg": text}, workers=4, xmx="4g", timeout=3000)
         ctx.notes.setdefault("model_sizes", {})[n] = r.summary()
     vp.parallel([lambda n=n: one(n) for n in names], maxpar=6)
 
@@ -129,10 +152,7 @@ def broken(ctx):
         base, bug, kind, prop = b
         name = "B%02d" % i
         text = cfg_with(base, add='CONSTANTS Bug = "%s"\n%s %s' % (bug, kind, prop)).replace('Bug = "none"\n', "")
-        if ctx.quick and base == "tcp_live":
-            text += "CONSTANTS\n" + "".join("  %s = %s\n" % kv for kv in LIVE_QUICK.items())
-            for k in LIVE_QUICK:
-                text = re.sub(r"^  %s = TRUE\n" % k, "", text, flags=re.M)
+        text = with_consts(text, quick_consts(ctx, base))
         r = ctx.tlc("MC_Server", cfg=name, files={name + ".cfg": text}, workers=2, xmx="3g", timeout=1800,
                     must_pass=False, count=False)
         if not re.search(r"(Invariant|property) %s (is|was) violated" % prop, r.out):
@@ -281,7 +301,28 @@ def reuse(ctx, binp, tag):
         absorb(ctx, s, rerun)
 
 
-def record_tv(ctx, binp, mode, nruns, shards, tag):
+def tv_many(ctx, mode, items, name):
+    """Validate several recorded files of one mode in ONE TLC run (they are separated by `reset` events);
+    only when something is rejected or violated are the files examined one by one."""
+    items = [it for it in items if os.path.exists(it[0]) and os.path.getsize(it[0]) > 0]
+    if not items:
+        return
+    if len(items) == 1:
+        return tv(ctx, mode, *items[0])
+    allp = os.path.join(ctx.out, "all-%s-%s.ndjson" % (name, mode))
+    with open(allp, "w") as f:
+        for p, _, _ in items:
+            f.write(open(p).read())
+    tr = ctx.tlc_trace("Trace_Server", allp, cfg="Trace_Server_" + mode, xmx="3g", timeout=3000)
+    inv = json.loads(tr.vals.get("inv", "[]") or "[]")
+    if tr.accepted and not inv:
+        with vp._lock:
+            ctx.traces += tr.hwm or 0
+        return
+    vp.parallel([lambda it=it: tv(ctx, mode, *it) for it in items], maxpar=6)
+
+
+def record_tv(ctx, binp, mode, nruns, shards, tag, later=None):
     def one(k):
         out = os.path.join(ctx.out, "rec-%s-%s-%d.ndjson" % (tag, mode, k))
         rerun = {"kind": "record", "mode": mode, "nruns": nruns, "seed": ctx.seed * 1000 + k, "race": tag == "race"}
@@ -289,7 +330,12 @@ def record_tv(ctx, binp, mode, nruns, shards, tag):
         if s is not None:
             absorb(ctx, s, rerun)
         if os.path.exists(out):
-            tv(ctx, mode, out, "record %s seed %d (%s)" % (mode, rerun["seed"], tag), rerun)
+            item = (out, "record %s seed %d (%s)" % (mode, rerun["seed"], tag), rerun)
+            if later is None:
+                tv(ctx, mode, *item)
+            else:
+                with vp._lock:
+                    later.append(item)
     vp.parallel([lambda k=k: one(k) for k in range(shards)], maxpar=8)
 
 
@@ -338,7 +384,7 @@ def plan_restart_class(plan):
     return False
 
 
-def replay_plans(ctx, binp, mode, plans, name, timeout=900):
+def replay_plans(ctx, binp, mode, plans, name, timeout=900, later=None):
     """Force plans onto the real server in one process; validate what was observed."""
     pf = os.path.join(ctx.out, "plans-%s.ndjson" % name)
     out = os.path.join(ctx.out, "replay-%s.ndjson" % name)
@@ -348,7 +394,7 @@ def replay_plans(ctx, binp, mode, plans, name, timeout=900):
         where, report = s.pop("_race")
         if len(plans) > 1:
             # which behaviour raced?  one process per plan; this batch's other results are dropped
-            vp.parallel([lambda i=i, p=p: replay_plans(ctx, binp, mode, [p], "%s-one%d" % (name, i), timeout=300)
+            vp.parallel([lambda i=i, p=p: replay_plans(ctx, binp, mode, [p], "%s-one%d" % (name, i), timeout=300, later=later)
                          for i, p in enumerate(plans)], maxpar=6)
             return None
         evs = vp.read_ndjson(out) if os.path.exists(out) else []
@@ -368,7 +414,11 @@ def replay_plans(ctx, binp, mode, plans, name, timeout=900):
             ex = ctx.notes.setdefault("not_realised_examples", [])
             ex += (s["notes"].get("not_realised_examples") or [])[:max(0, 4 - len(ex))]
     if os.path.exists(out):
-        tv(ctx, mode, out, "gated replay " + name, rerun)
+        if later is None:
+            tv(ctx, mode, out, "gated replay " + name, rerun)
+        else:
+            with vp._lock:
+                later.append((mode, (out, "gated replay " + name, rerun)))
     return s
 
 
@@ -381,6 +431,7 @@ def restart(ctx, binp, racebin):
         name = "R%02d" % i
         text = cfg_with(base, drop=("INVARIANTS", "INVARIANT", "PROPERTIES", "PROPERTY", "VIEW"),
                         add="CONSTANTS TrackAct = TRUE\n%s %s" % (kind, prop)).replace("TrackAct = FALSE\n", "")
+        text = with_consts(text, quick_consts(ctx, base))
         r = ctx.tlc("MC_Server", cfg=name, files={name + ".cfg": text}, workers=4, xmx="4g", timeout=2400, must_pass=False, count=False)
         if not re.search(r"(Invariant|property) %s (is|was) violated" % prop, r.out):
             raise vp.Infra("MC_Server_%s no longer violates %s at model level (expected: restart during shutdown)\n%s"
@@ -394,9 +445,10 @@ def restart(ctx, binp, racebin):
 
 
 def gen_replay(ctx, binp, racebin):
-    n = 200 if ctx.quick else 10000
+    n = 120 if ctx.quick else 10000
     sets = [("tcp", "tcp"), ("pc", "pc"), ("twice", "tcp"), ("reseq", "tcp"), ("fail", "tcp"), ("fail_pc", "pc"),
-            ("both", "tcp"), ("both_pc", "pc")]
+            ("both", "tcp"), ("both_pc", "pc"), ("hijack", "tcp")]
+    later = []
 
     def one(cfgname, mode):
         r, vecs = ctx.tlc_vectors("Gen_Server", cfg="Gen_Server_" + cfgname, workers=1, xmx="3g", timeout=3000,
@@ -404,17 +456,19 @@ def gen_replay(ctx, binp, racebin):
         plans = split_plans(vecs)
         plain = [p for p in plans if not plan_restart_class(p)]
         rs = [p for p in plans if plan_restart_class(p)]
-        replay_plans(ctx, binp, mode, plain, cfgname)
-        replay_plans(ctx, racebin, mode, plain, cfgname + "-race", timeout=1800)
         # behaviours that restart during a shutdown may block for good: one process each, a few of them
-        few = rs[:3] if ctx.quick else rs[:24]
-        vp.parallel([lambda i=i, p=p, b=b: replay_plans(ctx, b, mode, [p], "%s-restart%d%s" % (cfgname, i, "-race" if b == racebin else ""),
-                                                        timeout=300)
-                     for i, p in enumerate(few) for b in (binp, racebin)], maxpar=4)
+        few = rs[:2] if ctx.quick else rs[:24]
+        jobs = [lambda: replay_plans(ctx, binp, mode, plain, cfgname, later=later),
+                lambda: replay_plans(ctx, racebin, mode, plain, cfgname + "-race", timeout=1800, later=later)]
+        jobs += [lambda i=i, p=p, b=b: replay_plans(ctx, b, mode, [p], "%s-restart%d%s" % (cfgname, i, "-race" if b == racebin else ""), timeout=300)
+                 for i, p in enumerate(few) for b in (binp, racebin)]
+        vp.parallel(jobs, maxpar=4)
         with vp._lock:
             ctx.notes.setdefault("restart_class_plans", 0)
             ctx.notes["restart_class_plans"] += len(few)
-    vp.parallel([lambda c=c, m=m: one(c, m) for c, m in sets], maxpar=4)
+    vp.parallel([lambda c=c, m=m: one(c, m) for c, m in sets], maxpar=5)
+    # what the forced runs did is judged per mode in one TLC run each
+    vp.parallel([lambda m=m: tv_many(ctx, m, [it for mm, it in later if mm == m], "gated") for m in ("tcp", "pc")], maxpar=2)
 
 
 # ---------------------------------------------------------------------- entry points
@@ -436,16 +490,36 @@ def confirm_with(ctx, binp):
     return confirm
 
 
+def timed(ctx, name, f):
+    def g():
+        t = time.time()
+        try:
+            return f()
+        finally:
+            with vp._lock:
+                ctx.notes.setdefault("stage_s", {})[name] = round(time.time() - t, 1)
+    return g
+
+
 def run(ctx):
-    binp = ctx.build("server")
-    racebin = ctx.build("server", race=True)
+    # the two harness builds run beside the stages that need no harness (TLC on the spec alone)
+    from concurrent.futures import ThreadPoolExecutor
+    ex = ThreadPoolExecutor(max_workers=2)
+    fb, fr = ex.submit(ctx.build, "server"), ex.submit(ctx.build, "server", True)
+    binp, racebin = (lambda: fb.result()), (lambda: fr.result())
     runs, shards = (40, 3) if ctx.quick else (300, 16)
-    stages = [lambda: mc(ctx), lambda: broken(ctx), lambda: restart(ctx, binp, racebin), lambda: gen_replay(ctx, binp, racebin)]
+    stages = [timed(ctx, "mc", lambda: mc(ctx)), timed(ctx, "broken", lambda: broken(ctx)),
+              timed(ctx, "restart", lambda: restart(ctx, binp(), racebin())), timed(ctx, "gen", lambda: gen_replay(ctx, binp(), racebin()))]
+    def rec(mode):
+        later = []
+        vp.parallel([lambda: record_tv(ctx, binp(), mode, runs, shards, "plain", later),
+                     lambda: record_tv(ctx, racebin(), mode, runs, max(1, shards // 2), "race", later)], maxpar=2)
+        tv_many(ctx, mode, later, "rec")
     for mode in ("tcp", "pc", "udp"):
-        stages.append(lambda mode=mode: record_tv(ctx, binp, mode, runs, shards, "plain"))
-        stages.append(lambda mode=mode: record_tv(ctx, racebin, mode, runs, max(1, shards // 2), "race"))
-    stages += [lambda: reuse(ctx, binp, "plain"), lambda: reuse(ctx, racebin, "race")]
-    vp.parallel(stages, maxpar=10)
+        stages.append(timed(ctx, "rec-" + mode, lambda mode=mode: rec(mode)))
+    stages += [timed(ctx, "reuse", lambda: reuse(ctx, binp(), "plain")), timed(ctx, "reuse-race", lambda: reuse(ctx, racebin(), "race"))]
+    vp.parallel(stages, maxpar=12)
+    binp = binp()
     ctx.assumptions += [
         "DEV1: read deadlines in the future (ReadTimeout / IdleTimeout, one hour in the harness) do not fire during a run",
         "DEV2: MaxTCPQueries, Hijack, MsgAcceptFunc reject/ignore, short packets, DecorateReader/Writer, TLS handshakes are not modelled "
